@@ -73,8 +73,24 @@ TIgnored ==
 \* events that have no counterpart in this model (ledger, probes of other layers)
 TOther ==
   /\ l <= N /\ ~ign
-  /\ E.e \in {"Mem", "SrcCheck", "DropElem", "CloneElem", "Partial", "End"}
+  /\ \/ E.e \in {"SrcCheck", "CloneElem", "Partial", "End"}
+     \/ (E.e \in {"Mem", "DropElem"} /\ ~OwnApplies)
   /\ Skip
+
+\* consuming kinds: every destructor the machinery runs is one the model predicted for this step, in order
+TDropElem ==
+  /\ IsEvent("DropElem") /\ ~ign /\ OwnApplies
+  /\ IF own.expd[E.t] # << >> /\ Head(own.expd[E.t]) = E.id
+       THEN /\ own' = [own EXCEPT !.expd[E.t] = Tail(@)]
+            /\ l' = l + 1
+            /\ cnt' = [cnt EXCEPT ![2] = @ + 1]
+            /\ UNCHANGED <<cf, counter, alive, pc, op, tk, left, res, buf, nops, mon, h, run, ign, expv, div>>
+       ELSE Diverge("drop")
+
+\* the allocator ledger agrees with the model's account of the consumed collection's buffer
+TMem ==
+  /\ IsEvent("Mem") /\ ~ign /\ OwnApplies
+  /\ IF E.at = "start" \/ E.live = own.heap THEN Skip ELSE Diverge("heap")
 
 TStop ==      \* a run that hung or aborted is not matched further
   /\ l <= N /\ ~ign
@@ -149,7 +165,7 @@ SameRes(m, r) ==
 
 TRet ==
   /\ IsEvent("Ret") /\ ~ign
-  /\ IF pc[E.t] = "ret" /\ expv[E.t] = << >> /\ SameRes(res[E.t], E.res)
+  /\ IF pc[E.t] = "ret" /\ expv[E.t] = << >> /\ own.expd[E.t] = << >> /\ SameRes(res[E.t], E.res)
        THEN /\ Ret(E.t)
             /\ l' = l + 1
             /\ cnt' = [cnt EXCEPT ![3] = @ + 1]
@@ -163,7 +179,7 @@ TInit ==
   /\ div = {}
   /\ cnt = <<0, 0, 0>>
 
-TNext == TReset \/ TIgnored \/ TOther \/ TStop \/ TCall \/ TFetchAdd \/ TLoad \/ TStore \/ TVisit \/ TRet
+TNext == TReset \/ TIgnored \/ TOther \/ TDropElem \/ TMem \/ TStop \/ TCall \/ TFetchAdd \/ TLoad \/ TStore \/ TVisit \/ TRet
 
 TSpec == TInit /\ [][TNext]_allvars
 
